@@ -193,6 +193,24 @@ func c07Run(e *core.Env) {
 			}
 		}
 	}
+	// WIDE-EDGE family (space.go): wide products at the edges of the exponent range
+	for iw, w := range wideEdge() {
+		if !e.Mine(int64(iw)) {
+			continue
+		}
+		e.State()
+		y := w.Y
+		for _, cc := range w.Ctxs {
+			for _, op := range c07Binary {
+				if op == "QuoInteger" && (cc.C.MaxExponent < 0 || cc.C.MinExponent > 0) {
+					// the property asks for exponent 0 *and* an adjusted exponent within the range: where the
+					// range does not contain 0 no non-zero integer satisfies both, so nothing is asserted
+					continue
+				}
+				do(op, w.X, &y, 0, cc, "")
+			}
+		}
+	}
 	// transcendental functions: DENSE(2,3) singles x p <= 5 (thorough: DENSE(3,3) on a stride)
 	k := 2
 	if e.Thorough() {
@@ -292,7 +310,7 @@ func init() {
 		Title: "Every finite result fits the context it was computed in",
 		Rule:  "every (operation x operands x context) point is executed and the result checked against the fit invariant (digits <= Precision counted from the decimal text, adjusted exponent <= Emax, exponent >= Etiny for non-zero values, non-negative coefficient, valid form, QuoInteger exponent 0); non-trivial = the result was rounded, inexact, subnormal, non-finite or at a system limit",
 		Bounds: func(tier string) string {
-			return buildArithSpace(tier, 0).Desc + "; ops Add,Sub,Mul,Quo,Rem,QuoInteger on X x (Y + clean/dirty infinities); Abs,Neg,Round,Reduce,Sqrt,Quantize,SetString on U; Cbrt,Exp,Ln,Log10 on DENSE(2|3,3) x p<=5(9) x 4 ranges x 2 modes; Pow on DENSE(2,2) x {integers -12..12, fractions}"
+			return buildArithSpace(tier, 0).Desc + "; ops Add,Sub,Mul,Quo,Rem,QuoInteger on X x (Y + clean/dirty infinities); Abs,Neg,Round,Reduce,Sqrt,Quantize,SetString on U; Cbrt,Exp,Ln,Log10 on DENSE(2|3,3) x p<=5(9) x 4 ranges x 2 modes; Pow on DENSE(2,2) x {integers -12..12, fractions}; WIDE-EDGE family: 8x8 coefficient pairs of 10..21 digits x precision {n-1,n,n+1,60} x 3 modes x MinExponent/MaxExponent -2..+2 steps around the adjusted exponent of the exact product (QuoInteger only where the range contains exponent 0)"
 		},
 		Run:    c07Run,
 		Replay: c07Replay,
